@@ -8,6 +8,7 @@ FAILING = {
     "gfa1": [
         ("add", "S\tA\t*"), ("add", "S\tA\tAC\tLN:i:9"), ("add", "P\tA\tA+,B+\t*"), ("add", "L\tA\t+\tB\t+\t2Q"), ("add", "L\tA\t+\tB"),
         ("add", "S\tX\t*\tLN:i:x"), ("add", "S\tX\t*\txx:i:1\txx:i:2"), ("add", "H\tVN:Z:3.0"), ("add", "H\tVN:Z:2.0"), ("add", "H\tnn:i:1\tVN:Z:2.0"),
+        ("add", "H\tnn:i:1\tTS:i:200"), ("add", "H\tnn:i:1\txx:i:7\tTS:i:200"),
         ("add", "E\te9\tA+\tB+\t0\t2\t6\t8$\t2M"), ("add", "S\tY\t8\t*"), ("add", "C\tA\t+\tB\t+\t-1\t*"), ("add", "L\tA\t+\tB\t+\t2M\tID:Z:B"),
         ("add", "P\tpz\tA+,Q+,B+\t2M"), ("add", "P\tpz\tA+;B+\t*"), ("add", "L\tA\t+\tB\t+\t2M\tRC:Z:x"),
         ("rename", "A", "B"), ("rename", "B", "p1"), ("rm", "nope"), ("settag", "A", "LN", "x"), ("settag", "A", "xx", [1, "a"]),
@@ -16,7 +17,7 @@ FAILING = {
     "gfa2": [
         ("add", "S\tA\t8\t*"), ("add", "E\te1\tA+\tB+\t0\t2\t6\t8$\t*"), ("add", "G\tA\tA+\tB-\t1\t*"), ("add", "U\tA\tB C"), ("add", "O\tB\tA+ C+"),
         ("add", "E\tez\tA+\tB+\t9\t8$\t0\t2\t*"), ("add", "E\tez\tQ+\tB+\t9\t8$\t0\t2\t*"), ("add", "E\tez\tA+\tB+\t2$\t8\t0\t2\t*"), ("add", "F\tA\tx+\t5\t2\t0\t8\t*"),
-        ("add", "H\tVN:Z:3.0"), ("add", "H\tVN:Z:1.0"), ("add", "H\tnn:i:1\tTS:i:x"), ("add", "L\tA\t+\tB\t+\t2M"), ("add", "S\tY\t*"), ("add", "E\tez\tA+\tB+\t0\t2"),
+        ("add", "H\tVN:Z:3.0"), ("add", "H\tVN:Z:1.0"), ("add", "H\tnn:i:1\tTS:i:x"), ("add", "H\tnn:i:1\tTS:i:200"), ("add", "H\tnn:i:1\txx:i:7\tTS:i:200"), ("add", "L\tA\t+\tB\t+\t2M"), ("add", "S\tY\t*"), ("add", "E\tez\tA+\tB+\t0\t2"),
         ("add", "U\tus\tC\txx:i:2"), ("add", "U\tuz\tC Q\tcv:i:3"), ("add", "U\tuz\tC\tcv:i:3\tdd:Z:x"), ("add", "U\tus\tQ R\txx:i:2"), ("add", "O\tos\tA+ B+\tzz:i:1\tzz:i:2"), ("add", "G\tgz\tA+\tB-\tx\t*"), ("add", "U\tuz\ta  b"),
         ("add", "O\tu1\tA+"), ("add", "U\to1\tA"), ("add", "E\tg1\tA+\tB+\t6\t8$\t0\t2\t*"),
         ("rename", "A", "B"), ("rename", "e1", "A"), ("rename", "u1", "A"), ("rm", "nope"), ("settag", "A", "xx", [1, "a"]), ("setfield", "A", "slen", "x"),
@@ -48,7 +49,48 @@ def do(g, op):
         l.set(op[2], op[3])
 
 
+UNKNOWN_PRELUDES = [[], ["H\txx:i:1"], ["# c"], ["L\tA\t+\tB\t+\t*"], ["X\tq\txx:i:1"], ["H\tTS:i:100", "P\tp\tA+,B+\t*"]]
+UNKNOWN_OPS = ["E\t*\tA+\tB+\tx\t2\t0\t2\t*", "E\te", "F\tA\tx+\tq\t2\t0\t2\t*", "G\tg\tA+\tB-\tx\t*", "U\tu\t", "O\to\tA", "O\to\t", "S\tA", "S\tA\tx\t*\t*", "S\tA\t*\tLN:i:x",
+               "H\txx:i:q", "H\tVN:Z:3.0", "H\tnn:i:1\tTS:i:200", "H\tnn:i:1\tVN:Z:3.0", "L\tA", "Q",
+               # well-formed lines that decide a version the queued lines cannot live with
+               "S\tA\t8\t*", "E\t*\tA+\tB+\t0\t2\t0\t2\t*", "H\tVN:Z:2.0", "S\tA\t*", "H\tVN:Z:1.0"]
+
+
+def unknown_case(case):
+    _, prelude, op, vlevel = case
+    fails = []
+    g = gfapy.Gfa(vlevel=vlevel)
+    try:
+        for l in prelude:
+            g.add_line(l)
+    except Exception as e:
+        return dict(key=case, nontrivial=False, failures=[])
+    def obs():
+        return dict(snap=state.snapshot(g), version=g.version, guess=g._version_guess, queue=[str(x) for x in g._line_queue], nh=g.n_input_header_lines)
+    before = obs()
+    raised = False
+    try:
+        g.add_line(op)
+    except Exception as e:
+        raised = True
+        after = obs()
+        if after != before:
+            try:
+                gfapy.Line(op, vlevel=vlevel)
+                wellformed = True
+            except Exception:
+                wellformed = False
+            diff = [k for k in before if before[k] != after[k]]
+            fails.append(dict(signature="C08:unknown-version:state-changed:%s:%s%s" % (op.split("\t")[0], type(e).__name__, ":well-formed-line-deciding-the-version" if wellformed else ""),
+                              what="after %r, add_line(%r) raised %s but %s changed: %s" % (prelude, op, type(e).__name__, diff, harness.short(str({k: (before[k], after[k]) for k in diff if k != "snap"}), 300)),
+                              case=dict(prelude=prelude, op=op, vlevel=vlevel),
+                              reproducer="import gfapy\ng = gfapy.Gfa(vlevel=%d)\nfor l in %r: g.add_line(l)\ntry: g.add_line(%r)\nexcept Exception as e: print(type(e).__name__)\nprint(g.version, g._version_guess, len(g._line_queue), g.n_input_header_lines, str(g))" % (vlevel, prelude, op)))
+    return dict(key=case, nontrivial=raised, failures=fails, sample=dict(prelude=prelude, op=op, vlevel=vlevel))
+
+
 def check(case):
+    if case[0] == "unknown":
+        return unknown_case(case)
     version, ids, ops, vlevel, tail = case
     lines = universe.lines_of(version, ids)
     fails = []
@@ -121,6 +163,10 @@ def cases(tier, seed):
             for _ in range(3 if tier == "quick" else 10):
                 ops = rng.sample(FAILING[version], 2)
                 out.append((version, ids, ops, rng.choice([1, 3]), tails[version]))
+    for prelude in UNKNOWN_PRELUDES:
+        for op in UNKNOWN_OPS:
+            for vlevel in (0, 1, 3):
+                out.append(("unknown", prelude, op, vlevel))
     return out
 
 
@@ -130,7 +176,7 @@ if __name__ == "__main__":
     res = harness.run(cs, check,
                       rule="catalogue Gfas (closed documents of <=%d primary lines) x %d/%d operations meant to fail (duplicates, clashes across record types, version conflicts, malformed fields, "
                            "inconsistent header values, contradictory group tags, illegal edits, renames to names in use); full-state snapshot (content, version, identifiers, per-line references and "
-                           "back-references) before/after every call that raises; plus pairs of failing calls followed by one legal add compared with a fresh Gfa. non-trivial = at least one call raised" % (
-                               2 if tier == "quick" else 3, len(FAILING["gfa1"]), len(FAILING["gfa2"])),
+                           "back-references) before/after every call that raises; plus pairs of failing calls followed by one legal add compared with a fresh Gfa; plus Gfas whose version is still unknown (%d preludes x %d lines that are refused, levels 0/1/3): version, guess, queue and header count are part of the snapshot. non-trivial = at least one call raised" % (
+                               2 if tier == "quick" else 3, len(FAILING["gfa1"]), len(FAILING["gfa2"]), len(UNKNOWN_PRELUDES), len(UNKNOWN_OPS)),
                       bound="one or two failing operations per state", exhaustive=False)
     harness.emit(res)
